@@ -224,4 +224,13 @@ def boot(cfg):
         raise RuntimeError("measured imported from %s, not from %s" % (real, REPO_SRC))
     b = Boot(cfg, tracer.events if tracer else None)
     b.take_snapshot()
+    b.shipped_sizes = None
+    if tracer is not None:
+        # hidden-truth sizes of the shipped units, solved from the observed declaration
+        # history (sim.c09); used as the oracle for conversions between shipped units
+        from sim import c09
+
+        solved = c09.solve(tracer.events)
+        b.shipped_sizes = dict(solved["sizes"])
+        b.snapshot["compound_declared"] = sorted(c09.compound_declared(solved))
     return b
